@@ -281,6 +281,15 @@ Eval vm_compute in map (fun c => let m := comp_assertions true (fst c) in
                 lines = ['#include <stddef.h>', '#include "%s"' % os.path.basename(p)]
                 for rec in recs:
                     a = asserts.get(rec.name)
+                    # completeness on this target too: size, alignment and every named non-bit-field member that is a field of the emitted type
+                    body = e2e.struct_body(out, rec.name)
+                    if body:
+                        fields = set(re.findall(r"pub (\w+)\s*:", body))
+                        want = [m["name"] for m in rec.members if m["name"] and not m["bitfield"] and m["name"] in fields]
+                        missing = (["size"] if not a or "size" not in a else []) + (["align"] if not a or "align" not in a else []) + [f for f in want if not a or f not in a.get("offsets", {})]
+                        if missing:
+                            ck.violation("C06-incomplete-target:" + ("msvc" if "msvc" in t else t), "for this target a record is emitted without some of its layout assertions",
+                                         {"target": t, "record": rec.text(), "missing": missing, "header": hdr[:2500]})
                     if not a:
                         continue
                     ty = "%s %s" % (rec.kind, rec.name)
